@@ -259,15 +259,17 @@ def jac(model_out, *derivative_variable):
     Returns
     ----------
     torch.tensor
-        A Tensor of shape (b, m, n), where every row contains a jacobian.
+        A Tensor of shape (b, m, n), where every row contains a jacobian. Further
+        batch dimensions in front are kept: inputs of shape (..., m) and (..., n)
+        give (..., m, n).
     """
     Du_rows = []
-    for i in range(model_out.shape[1]):
+    for i in range(model_out.shape[-1]):
         Du_i = []
         for vari in derivative_variable:
-            Du_i.append(_derivative(model_out[:, i].sum(), vari))
-        Du_rows.append(torch.cat(Du_i, dim=1))
-    Du = torch.stack(Du_rows, dim=1)
+            Du_i.append(_derivative(model_out[..., i].sum(), vari))
+        Du_rows.append(torch.cat(Du_i, dim=-1))
+    Du = torch.stack(Du_rows, dim=-2)
     return Du
 
 
@@ -298,11 +300,11 @@ def rot(model_out, *derivative_variable):
     """
     jacobian = jac(model_out, *derivative_variable)
     rotation = torch.zeros(
-        (len(derivative_variable[0]), 3), device=jacobian.device, dtype=jacobian.dtype
+        (*jacobian.shape[:-2], 3), device=jacobian.device, dtype=jacobian.dtype
     )
-    rotation[:, 0] = jacobian[:, 2, 1] - jacobian[:, 1, 2]
-    rotation[:, 1] = jacobian[:, 0, 2] - jacobian[:, 2, 0]
-    rotation[:, 2] = jacobian[:, 1, 0] - jacobian[:, 0, 1]
+    rotation[..., 0] = jacobian[..., 2, 1] - jacobian[..., 1, 2]
+    rotation[..., 1] = jacobian[..., 0, 2] - jacobian[..., 2, 0]
+    rotation[..., 2] = jacobian[..., 1, 0] - jacobian[..., 0, 1]
     return rotation
 
 
@@ -352,7 +354,7 @@ def convective(deriv_out, convective_field, *derivative_variable):
         derivative.
     """
     jac_x = jac(deriv_out, *derivative_variable)
-    return torch.bmm(jac_x, convective_field.unsqueeze(dim=2)).squeeze(dim=2)
+    return torch.matmul(jac_x, convective_field.unsqueeze(dim=-1)).squeeze(dim=-1)
 
 
 def sym_grad(model_out, *derivative_variable):
@@ -372,7 +374,7 @@ def sym_grad(model_out, *derivative_variable):
         symmetric gradient.
     """
     jac_matrix = jac(model_out, *derivative_variable)
-    return 0.5 * (jac_matrix + torch.transpose(jac_matrix, 1, 2))
+    return 0.5 * (jac_matrix + torch.transpose(jac_matrix, -1, -2))
 
 
 def matrix_div(model_out, *derivative_variable):
@@ -392,13 +394,13 @@ def matrix_div(model_out, *derivative_variable):
         divegrence of the input.
     """
     div_out = torch.zeros(
-        (len(model_out), model_out.shape[1]),
+        model_out.shape[:-1],
         device=model_out.device,
         dtype=model_out.dtype,
     )
-    for i in range(model_out.shape[1]):
+    for i in range(model_out.shape[-2]):
         # compute divergence of matrix by computing the divergence
         # for each row
-        current_row = model_out.narrow(1, i, 1).squeeze(1)
-        div_out[:, i : i + 1] = div(current_row, *derivative_variable)
+        current_row = model_out.narrow(-2, i, 1).squeeze(-2)
+        div_out[..., i : i + 1] = div(current_row, *derivative_variable)
     return div_out
